@@ -34,14 +34,14 @@ def dependents_closure(specs, seeds):
     return out
 
 
-def make(n, kinds, jobs_hi, orders="rev", launch=True, signals=True, stop_early_bit=True):
+def make(n, kinds, jobs_hi, orders="rev", launch=True, signals=True, stop_early_bit=True, batch=False):
     def fn(g):
         specs = graphs.sym_graph(g, n, kinds, orders=orders)
         root = n - 1
         stop_early = g.flag("stop_early") if stop_early_bit else False
         jobs = g.fresh_int("jobs", 1, jobs_hi, opaque=False)
-        sched = graphs.SymSched(g, signals=signals, launch_failures=launch, on_spawn=graphs.output_writer)
-        res = graphs.run_graph(g, specs, root, again=True, jobs=jobs, stop_early=stop_early, sched=sched)
+        sched = graphs.SymSched(g, signals=signals, launch_failures=launch, on_spawn=graphs.output_writer, batch=batch)
+        res = graphs.run_graph(g, specs, root, again=True, jobs=jobs, stop_early=stop_early, sched=sched, adversarial=batch)
         try:
             graphs.crash_check(g, res, specs)
             D = graphs.describe(specs) + ["stop_early=%s jobs=%s" % (stop_early, jobs)]
@@ -97,25 +97,19 @@ def make(n, kinds, jobs_hi, orders="rev", launch=True, signals=True, stop_early_
                 if len(failed) >= 2:
                     g.goal("two failed tasks")
             else:
-                # first observed failure
-                t_fail = None
-                for e in k.events:
-                    if e[0] == "launch_failed":
-                        t_fail = e[1]
-                        break
-                    if e[0] == "exit":
-                        j = idx[e[3]]
-                        if j in failed and any(p.pid == e[2] and not bool(sched.ok(p.pid)) for p in sp[j]):
-                            t_fail = e[1]
-                            break
+                # first observed failure: the moment Conductor reports a task as failed
+                # (a failed child that was reaped but not yet looked at has not been observed)
+                t_fail = info["failed_marks"][0][0] if info["failed_marks"] else None
+                if t_fail is None and failed:
+                    g.require(False, "fail:failure-never-reported", "failed=%s but no task was reported as failed; %s" % (sorted(failed), D))
                 g.require((res.status == 0) == (t_fail is None), "fail:exit-status",
                           "stop-early exit status %r, first failure at %s; %s" % (res.status, t_fail, D))
                 if t_fail is not None:
-                    late = [e for e in k.events if e[0] == "spawn" and e[1] > t_fail]
+                    late = [e[:4] for e in k.events if e[0] == "spawn" and e[1] > t_fail]
                     g.require(not late, "stopearly:task-started-after-failure",
                               "spawn %s after the first failure was observed at t=%s; %s" % (late, t_fail, D))
                     for p in k.tasks():
-                        if p.t_spawn < t_fail and (p.t_exit is None or p.t_exit > t_fail):
+                        if p.t_spawn <= t_fail and (p.t_exit is None or p.t_exit > t_fail):
                             g.require(any(sig == int(_signal.SIGTERM) for _, sig in p.killed), "stopearly:running-task-not-terminated",
                                       "%s still running after stop-early and never sent SIGTERM; %s" % (p, D))
                             g.goal("stop-early with a task still running")
@@ -123,6 +117,9 @@ def make(n, kinds, jobs_hi, orders="rev", launch=True, signals=True, stop_early_
                               "status=%r stderr=%r" % (res.status, res.err[-300:]))
                     g.require(len(failed_list) >= 1 and set(failed_list) <= failed, "fail:failed-list",
                               "Failed task(s) printed %s, failed %s; %s" % (info["failed_list"], sorted(failed), D))
+            if batch and getattr(sched, "nb", 0) and any(
+                    k.events[i][0] == "exit" and k.events[i + 1][0] == "exit" for i in range(len(k.events) - 1)):
+                g.goal("two exits delivered by one SIGCHLD")
             return {"nontrivial": bool(failed) and len(need) > 1,
                     "sample": {"tasks": D, "failed": sorted(specs[j].ident for j in failed), "status": res.status,
                                "failed_list": info["failed_list"], "skipped_list": info["skipped_list"],
@@ -142,6 +139,10 @@ def spaces(tier):
           Space("n2-signals-launch", make(2, graphs.ALL_KINDS, 2),
                 "N<=2, 4 kinds, par bits, jobs 1..2; per child: symbolic exit status | symbolic signal 1..64 | launch "
                 "failure (OSError from fork/exec); {default, --stop-early}", depth=6)]
+    sp.append(Space("n3-batched-exits-j2", make(3, ("run_command", "group"), 2, launch=False, signals=False, batch=True),
+                    "N<=3, kinds {run_command, group}, jobs 1..2, one SIGCHLD may stand for two exits (second child exits "
+                    "before the handler runs; the handler hands completions out last-in first-out), {default, --stop-early}",
+                    depth=8, goals=["two exits delivered by one SIGCHLD"]))
     if tier == "thorough":
         sp.append(Space("n3-allkinds-j2-all-failure-modes", make(3, graphs.ALL_KINDS, 2),
                         "N<=3 as above with all three failure modes per child", depth=8, tiers=("thorough",)))
